@@ -10,6 +10,7 @@ import (
 	"sort"
 
 	g "github.com/zenon-network/go-zenon/chain/genesis/mock"
+	"github.com/zenon-network/go-zenon/chain"
 	"github.com/zenon-network/go-zenon/chain/nom"
 	"github.com/zenon-network/go-zenon/chain/store"
 	"github.com/zenon-network/go-zenon/common/types"
@@ -109,14 +110,17 @@ type Scan struct {
 
 // Scanner keeps the confirmed part of the chain cached per momentum (validated by hash, so rollbacks are safe).
 type Scanner struct {
-	nd       *Node
+	ch       chain.Chain
 	momHash  []types.Hash          // index = height-1
 	momBlks  [][]*nom.AccountBlock // blocks of that momentum in content order (batched ContractSend included)
 	Accounts map[types.Address]bool
 }
 
-func NewScanner(nd *Node) *Scanner {
-	s := &Scanner{nd: nd, Accounts: map[types.Address]bool{}}
+func NewScanner(nd *Node) *Scanner { return NewScannerOf(nd.Ch) }
+
+// NewScannerOf scans any chain (mock node, bare node fed through the chain bridge).
+func NewScannerOf(ch chain.Chain) *Scanner {
+	s := &Scanner{ch: ch, Accounts: map[types.Address]bool{}}
 	for _, c := range types.EmbeddedContracts {
 		s.Accounts[c] = true
 	}
@@ -168,7 +172,7 @@ func (s *Scanner) BlocksOfMomentum(height uint64) []*nom.AccountBlock { return s
 
 // PoolBlocks returns the unconfirmed blocks, per account in chain order (accounts in a fixed order).
 func (s *Scanner) PoolBlocks() []*nom.AccountBlock {
-	all := s.nd.Ch.GetAllUncommittedAccountBlocks()
+	all := s.ch.GetAllUncommittedAccountBlocks()
 	by := map[types.Address][]*nom.AccountBlock{}
 	var addrs []types.Address
 	for _, b := range all {
@@ -197,8 +201,7 @@ func (s *Scanner) note(b *nom.AccountBlock) {
 // Scan walks the whole ledger: every momentum's content (cached), optionally the pool, every account's balance map,
 // the token table of the token contract.
 func (s *Scanner) Scan(pool bool) *Scan {
-	nd := s.nd
-	ms := nd.Ch.GetFrontierMomentumStore()
+	ms := s.ch.GetFrontierMomentumStore()
 	s.refresh(ms)
 	sc := &Scan{Pool: pool, Height: ms.Identifier().Height, Bal: map[types.Address]map[types.ZenonTokenStandard]*big.Int{},
 		ReceivedBy: map[types.Hash][]*nom.AccountBlock{}, SendByHash: map[types.Hash]*nom.AccountBlock{}}
@@ -229,7 +232,7 @@ func (s *Scanner) Scan(pool bool) *Scan {
 	for _, a := range sc.Accounts {
 		var as store.Account
 		if pool {
-			as = nd.Ch.GetFrontierAccountStore(a)
+			as = s.ch.GetFrontierAccountStore(a)
 		} else {
 			as = ms.GetAccountStore(a)
 		}
@@ -241,7 +244,7 @@ func (s *Scanner) Scan(pool bool) *Scan {
 	}
 	var tokStore store.Account
 	if pool {
-		tokStore = nd.Ch.GetFrontierAccountStore(types.TokenContract)
+		tokStore = s.ch.GetFrontierAccountStore(types.TokenContract)
 	} else {
 		tokStore = ms.GetAccountStore(types.TokenContract)
 	}
